@@ -105,3 +105,23 @@ Lemma go_un_in_range : forall k u x, in_range k (go_un k u x).
 Proof. intros k u x; destruct u; apply in_range_wrap. Qed.
 Lemma go_shift_in_range : forall k s x n, in_range k x -> 0 <= n -> in_range k (go_shift k s x n).
 Proof. intros k s x n R Hn; destruct s; cbn [go_shift]; [apply in_range_wrap | apply shiftr_in_range; assumption]. Qed.
+
+(* ---- 64-bit kinds: every binary operator except / and % ------------------------------------------------- *)
+From Verif Require Import Proofs.C06_Ops64 Proofs.C06_Mul64 Proofs.C06_Bits64.
+
+Lemma bin64_correct_partial : forall V k o x y, is64 k = true -> in_range k x -> in_range k y ->
+  o <> Quo -> o <> Rem ->
+  bin64 V k o (enc64 k x) (enc64 k y) =
+  match go_bin k o x y with GVal v => Ret (enc64 k v) | GPanicDivide => Throw DivideByZero end.
+Proof.
+  intros V k o x y H Rx Ry NQ NR. destruct o; cbn [go_bin].
+  - apply add64_correct; assumption.
+  - apply sub64_correct; assumption.
+  - apply mul64_bin_correct; assumption.
+  - exfalso; apply NQ; reflexivity.
+  - exfalso; apply NR; reflexivity.
+  - apply and64_correct; assumption.
+  - apply or64_correct; assumption.
+  - apply xor64_correct; assumption.
+  - apply andnot64_correct; assumption.
+Qed.
